@@ -21,6 +21,11 @@ ASSUMPTIONS = ['text-mode open() uses strict error handling (locale codec)',
 MINIMUM = {'R19.1': 8, 'R19.2': 1, 'R19.3': 2, 'R19.4': 4}
 
 
+# rules of sibling properties that are necessary conditions of this one too
+# (evaluated by the sibling module on the same graphs, reported under this property)
+ALSO = {'C10': {'R10.1': 'an undated / unparsable entry is kept, it does not abort the purge',
+         'R10.2': 'an undated / unparsable entry is kept, it does not abort the purge'}}
+
 def entry_iterations(b):
     """iteration nodes binding an element of os.listdir(<D>/info)."""
     out = []
